@@ -592,7 +592,7 @@ class TrG(Tr):
         if not stmts:
             raise Abstain('control reaches the end of the function without return')
         s, rest = stmts[0], stmts[1:]
-        if isinstance(s, ast.Expr) and isinstance(s.value, ast.Constant) and isinstance(s.value.value, str):
+        if isinstance(s, ast.Pass) or (isinstance(s, ast.Expr) and isinstance(s.value, ast.Constant) and isinstance(s.value.value, str)):
             return self.block(rest)
         if isinstance(s, ast.Return):
             if s.value is None:
@@ -670,7 +670,7 @@ class TrG(Tr):
         if not stmts:
             return self.tup(state) if mode == 'total' else f'(Ok {self.tup(state)})'
         s, rest = stmts[0], stmts[1:]
-        if isinstance(s, ast.Expr) and isinstance(s.value, ast.Constant) and isinstance(s.value.value, str):
+        if isinstance(s, ast.Pass) or (isinstance(s, ast.Expr) and isinstance(s.value, ast.Constant) and isinstance(s.value.value, str)):
             return self.body(rest, state, mode)
         if isinstance(s, ast.If):
             if mode == 'res' and not s.orelse and len(s.body) == 1 and isinstance(s.body[0], ast.Raise):   # G6
